@@ -557,6 +557,9 @@ func Run(t *simkit.Tape, o *simkit.Outcome, full bool) {
 			// values with leading / trailing white space must reach the decoder untouched
 			s.Entities = append(s.Entities, [2]string{"ent", []string{"EV", " ", " pad ", "\t", "\u00a0", "é "}[t.Pick(4, 1, 1, 1, 1, 1)]})
 		}
+		if t.Bool(1, 2) {
+			s.U = true // -u and -e together: both configure the same decoder
+		}
 		// some XML files reference the entity (with -e it expands; without, the file is unparsable)
 		for i := range s.Tree {
 			f := &s.Tree[i]
